@@ -17,7 +17,7 @@ ASSUMPTIONS = ["valid = value domains of docs/config.md and the config classes +
                "input sides are multiples of max_stride; eval() mode; CPU, single thread",
                "tolerances: determinism / history 1e-6, batch independence 1e-4"]
 SHARDS = {"quick": 8, "thorough": 16}
-BUDGET = {"quick": 100, "thorough": 1500}
+BUDGET = {"quick": 100, "thorough": 600}
 TIMEOUT = {"quick": 600, "thorough": 3000}
 SELF_SHARDED = True
 N_QUICK = 420
